@@ -2025,7 +2025,9 @@ The what argument tells us what sort of state is expected (allowed values are de
                         setup_msgs[msg] = 1
 
             q = utils.Quiet(self)
-            self.unsetupSetupProduct(product, noRecursion=noRecursion, recursionDepth=recursionDepth)
+            # with --keep the products that are already setup retain their versions, and that includes
+            # the dependencies of the version that we're replacing
+            self.unsetupSetupProduct(product, noRecursion=(noRecursion or self.keep), recursionDepth=recursionDepth)
             del q
 
             if localProduct:
